@@ -50,6 +50,10 @@ func (f *Remhash) Call(s *slip.Scope, args slip.List, depth int) (result slip.Ob
 	if !ok {
 		slip.TypePanic(s, depth, "hash-table", args[1], "hash-table")
 	}
+	if !ht.Hashable(args[0]) {
+		// A key that is only eql to itself and can not be in the table.
+		return nil
+	}
 	key := ht.Key(args[0])
 	_, has := ht[key]
 	delete(ht, key)
